@@ -4,9 +4,12 @@ from vlib.scn import Scenario, h
 from checks.outparse import parse_raws, NONE, txt
 
 ID = "C07"
-LEAN_MODULES = ["Econf.Props.C07"]
-THEOREMS = ["Econf.C07_roundtrip", "Econf.C07_object", "Econf.C07_setter_step", "Econf.C07_setters", "Econf.C07_built_roundtrip", "Econf.render_docOf", "Econf.docOf_wf", "Econf.doc_reread", "Econf.C02_parse_render"]
+LEAN_MODULES = ["Econf.Props.C07", "Econf.Props.Leaf"]
+THEOREMS = ["Econf.C07_roundtrip", "Econf.C07_object", "Econf.C07_setter_step", "Econf.C07_setters", "Econf.C07_built_roundtrip", "Econf.render_docOf", "Econf.docOf_wf", "Econf.doc_reread", "Econf.C02_parse_render",
+            "Leaf.C_addbrackets", "Leaf.addSpec_eq"]
 SHRINK = False
+# string helpers translated from the C source on every run (gen/c2lean.py); theorems in lean/Econf/Props/Leaf.lean
+LEAF_FNS = ["addbrackets"]
 RULE = ("objects built by random setter histories with arguments of DESIGN.md 5.4 (interleaved group-less and sectioned keys, re-opened "
         "sections, overwritten keys, typed setters) and objects parsed from conventional documents, x delimiter char {=,:,space} x "
         "comment char {#,;}; each is written, read back with the same characters and compared; distinct by written bytes and characters")
